@@ -33,6 +33,7 @@ func init() {
 			{ID: "C15-R10", Title: "Compare/Equals convert floats to integers only under a range test", Floor: 5, Run: floatToIntGuarded},
 			{ID: "C15-R11", Title: "Compare/Equals/HashKey push no operand through a lossy conversion", Floor: 20, Run: lossyConversionsInComparisons},
 			{ID: "C15-R12", Title: "times are compared as instants (Equal/Before/After), never with ==", Floor: 1, Run: timesComparedAsInstants},
+			{ID: "C15-R13", Title: "Equals and HashKey look at the same thing", Floor: 1, Run: equalsAndHashKeyLookAtTheSameThing},
 		},
 	})
 }
